@@ -249,7 +249,11 @@ def standardOp (env : Env) (sg : Subgraph) (qsvs : Qsvs) (oi : OpInfo) (con : Co
     | .sameAsInput =>
       let t ← (match inT with | [t] => pure t | _ => throw PyErr.valueError)
       let ir ← wrapper env qs oi t true none
-      let p ← reqParam0 ir
+      let p0 ← reqParam0 ir
+      -- repair D22: results share the parameters but not the quantized values of a constant operand
+      let p : Option Param := match p0 with
+        | some (.uniform qp (some _)) => some (.uniform qp none)
+        | x => x
       let outs ← outT.mapM fun o => wrapper env qs oi o false p
       let iq ← (match Py.dictGet? qs ir.name with | some e => pure e | none => throw PyErr.keyError)
       for o in outT do
